@@ -474,6 +474,8 @@ def rec_summary(rec):
         out['coarse'] = [[k, dict(a).get('fragname'), [n for n, _, _ in g]]
                          for (k, a, _), (_, g) in zip(rec['meta'], rec['fgs'])] if len(rec['meta']) == len(rec['fgs']) else None
         out['fragid'] = [[n, dec_val(dict(a).get('fragid'))] for n, a, _ in rec['mol']][:40]
+        out['mapping'] = [[n, [list(m) for m in (dec_val(dict(a).get('mapping')) or [])]] for n, a, _ in rec['mol']
+                          if dict(a).get('mapping') is not None][:40]
     return out
 
 
